@@ -18,9 +18,11 @@ from e3lib import Drv, rows, row_paths, vtodo, rd, judge, split_mail, shim_event
 
 JOBS = ('silent', 'out3', 'err3', 'alt50', 'big', 'cat')
 EXITS = ('0', '3', 'term', 'kill')
-KNOBS = ('cwd', 'umask', 'shell', 'ifile', 'noorg', 'noatt', 'mailrun', 'att2')
+KNOBS = ('cwd', 'umask', 'shell', 'ifile', 'noorg', 'noatt', 'mailrun', 'att2', 'slowmail')
 # clauses a knob can bear on; routing clauses do not carry the knob in their signature
 KNOB_CLAUSES = ('cwd', 'umask', 'stdin', 'shell', 'mail-unwanted', 'mail-count', 'mail-hdr', 'run-count', 'hang', 'echsx-died')
+# under the slowmail knob (1 s limit, job done at once, mailer busy for 2 s) every clause carries the knob
+ALL_CLAUSES_KNOBS = ('slowmail',)
 SIZES = {'silent': (0, 0), 'out3': (192, 0), 'err3': (0, 192), 'alt50': (1600, 1600), 'big': (204800, 204800)}
 IFILE_TEXT = b''.join(bytes([97 + (i * 5 + i // 64) % 26]) if i % 64 != 63 else b'\n' for i in range(70000))
 
@@ -116,8 +118,12 @@ def run_case(D, d, row, jobm, ex, knob, uid, echsx, shim, rec, job):
         k[knob] = 1
     elif knob == 'att2':
         k['att'] = [ATT, 'second-c13@example.org']
+    extra = ()
+    if knob == 'slowmail':
+        # the job is over long before its limit, the mailer is still at it when the limit runs out
+        extra = ('DURATION:PT1S',)
     uidtxt = 'c13-%d' % D.idx
-    txt = vtodo(uidtxt, cmd, row, d, uid, k)
+    txt = vtodo(uidtxt, cmd, row, d, uid, k, extra)
     D.desc('row %s (OFILE=%s EFILE=%s MAIL-OUT=%d MAIL-ERR=%d) job=%s exit=%s knob=%s; request: %s' % (
         row['name'], row['out'], row['err'], row['mo'], row['me'], jobm, ex, knob,
         txt.replace(d, '$D').replace('\n', '|')))
@@ -125,6 +131,8 @@ def run_case(D, d, row, jobm, ex, knob, uid, echsx, shim, rec, job):
         f.write(txt)
     env = {'LD_PRELOAD': shim, 'E3_MAILREC': rec, 'E3_MAILFILE': os.path.join(d, 'mail'),
            'E3_LOG': os.path.join(d, 'shim.log'), 'PATH': '/usr/bin:/bin'}
+    if knob == 'slowmail':
+        env['E3_MAILDELAY'] = '2'
     t0 = int(time.time())
     with open(os.path.join(d, 'req.ics'), 'rb') as fi, open(os.path.join(d, 'journal'), 'wb') as fo, \
             open(os.path.join(d, 'echsx.err'), 'wb') as fe:
@@ -199,7 +207,7 @@ def run_case(D, d, row, jobm, ex, knob, uid, echsx, shim, rec, job):
         sig = '%s/%s' % (clause, shape)
         if clause in ('journal-status', 'mail-status'):
             sig += '/' + ex
-        if knob and clause in KNOB_CLAUSES:
+        if knob and (clause in KNOB_CLAUSES or knob in ALL_CLAUSES_KNOBS):
             sig += '/' + knob
         D.viol(sig, detail)
     if len(exp['out']) + len(exp['err']) > 0 and (row['out'] or row['err'] or exp['mail']):
